@@ -331,23 +331,66 @@ def observed_classes(c, i):
             seq.append(k)
     return seq
 
-def tie(cases):
-    """the model's class sequence per call kind (mdkdrv crashcore) against the observed one"""
+def model_lines():
+    """`mdkdrv crashcore`: ({callkind: classes} of Model.CrashCore, {callkind: [(case, path index, classes)]} of
+    Model.CrashSeq, [open signature])"""
     rc, out, err = C.run_lines([C.DRV, "crashcore"], "")
-    model = {l.split()[0]: l.split()[1].split(",") for l in out if l.strip()}
+    core, seqs, opens = {}, {}, []
+    for l in out:
+        t = l.split()
+        if not t:
+            continue
+        if t[0] == "seq":
+            seqs.setdefault(t[1], []).append((int(t[2]), int(t[3]), t[4].split(",") if len(t) > 4 else []))
+        elif t[0] == "open":
+            opens.append(t[1])
+        elif len(t) > 1:
+            core[t[0]] = t[1].split(",")
+    return core, seqs, opens
+
+def tie(cases):
+    """the model's class sequence per call kind (mdkdrv crashcore) against the observed one: the four calls of
+    Model.CrashCore, and every call kind Model.CrashSeq classifies (the observed sequence must be the one of SOME
+    translated path of a case of that kind)"""
+    model, seqs, _opens = model_lines()
     bad, compared = [], 0
     for c in cases:
         if c.get("maxk", 0):
             continue                      # sampled enumeration may skip a short phase: the tie needs every tick
         for b in c["base"]:
-            if b["callkind"] in model:
-                compared += 1
-                obs = observed_classes(c, b["i"])
-                if len(obs) == len(model[b["callkind"]]) + 1 and obs[-1] == "recoverable":
-                    obs = obs[:-1]            # ticks after the last effect that matters: the call is complete for every observer
-                if obs != model[b["callkind"]]:
-                    bad.append((c, b["i"], f"{b['callkind']}: observed class sequence {obs} but Model.CrashCore lists {model[b['callkind']]}"))
+            kind = b["callkind"]
+            if kind not in model and kind not in seqs:
+                continue
+            compared += 1
+            obs = observed_classes(c, b["i"])
+            def fits(want):
+                return obs == want or (len(obs) == len(want) + 1 and obs[-1] == "recoverable" and obs[:-1] == want)
+                # ticks after the last effect that matters: the call is complete for every observer
+            if kind in model and not fits(model[kind]):
+                bad.append((c, b["i"], f"{kind}: observed class sequence {obs} but Model.CrashCore lists {model[kind]}"))
+            if kind in seqs and not any(fits(w) for _c, _p, w in seqs[kind]):
+                bad.append((c, b["i"], f"{kind}: observed class sequence {obs} is the sequence of no translated path: Model.CrashSeq lists " +
+                            "; ".join(f"case {cc} path {pp}: {','.join(w)}" for cc, pp, w in seqs[kind])))
     return bad, compared, model
+
+def open_findings_tie():
+    """(ok, text): the open mechanisms the model derives from the regenerated table (`unrecoverable_signatures`) are the
+    open crash findings of known_findings.jsonl (`<mechanism>:<call>`) — process_commit_rollback is the commit case reached
+    through a rollback, which Model.CrashSeq does not classify"""
+    import json, re
+    _m, _s, opens = model_lines()
+    known = set()
+    for l in open(os.path.join(C.VERIF, "known_findings.jsonl")):
+        l = l.strip()
+        if not l:
+            continue
+        e = json.loads(l)
+        if e.get("status") == "open" and "C12" in e.get("properties", []) and re.fullmatch(r"[a-z-]+:[a-z_]+", e.get("signature", "")):
+            known.add(e["signature"])
+    mine = set(opens) | {"torn-merge:process_commit_rollback"}
+    if mine == known:
+        return True, f"{len(known)} open crash mechanisms, the same in known_findings.jsonl and in Props/C12.lean unrecoverable_signatures"
+    return False, f"model-only: {sorted(mine - known)}; known-findings-only: {sorted(known - mine)}"
 
 def replay(path):
     """re-executes one core-level history: every crash point of the call named in the trace (or of all calls)"""
